@@ -380,8 +380,78 @@ def job_read_from(jc):
     jc.expect_reached("ok")
 
 
+# ---------------------------------------------------------------- two builds in one process (state carried between builds)
+
+
+def _two_builds(upem, F, h, asc1, asc2):
+    """BitmapMetrics.create for two configurations of one em height but different ascenders, one after the other"""
+    out = []
+    for asc in (asc1, asc2):
+        cfg = FontConfig()._replace(upem=upem, ascender=asc, descender=asc - F, width=0, bitmap_resolution=h, color_format="cbdt")
+        ppem = BT._ppem(cfg, h)
+        m = BT.BitmapMetrics.create(cfg, StubPNG(h, h), ppem)
+        out.append((m.y_offset, m.line_ascent, m.line_height, ppem))
+    return out
+
+
+def replay_two_builds(inp):
+    """in a FRESH interpreter: the exploration itself may have left state behind in this process, and the claim is
+    about what two builds in one (new) process produce"""
+    import json
+    import subprocess
+    import sys
+
+    code = "import json,sys; sys.path.insert(0, %r); from harness import C14; print(json.dumps(C14._two_builds_verdict(json.loads(sys.argv[1]))))" % __import__("os").path.dirname(__import__("os").path.dirname(__import__("os").path.abspath(__file__)))
+    p = subprocess.run([sys.executable, "-c", code, json.dumps({k: (int(v) if not isinstance(v, str) else v) for k, v in inp.items()})], capture_output=True, text=True, timeout=300)
+    if p.returncode != 0:
+        return {"replay subprocess failed": p.stderr[-400:]}
+    return json.loads(p.stdout.strip().splitlines()[-1])
+
+
+def _two_builds_verdict(inp):
+    upem, F, h = inp["upem"], inp["F"], inp["h"]
+    a1, a2 = int(inp["asc1"]), int(inp["asc2"])
+    try:
+        got = _two_builds(upem, F, h, a1, a2)
+    except (AssertionError, ValueError):
+        return None
+    bad = []
+    for asc, (y, la, lh, ppem) in zip((a1, a2), got):
+        s = ppem / upem
+        if abs(y - (asc * s - 0.5 * (lh - h))) > 0.5 + 1e-9 and -128 < y < 127:
+            bad.append({"ascender": asc, "BearingY": y, "scaled ascender minus half the height mismatch": asc * s - 0.5 * (lh - h)})
+    return {"two builds in one process, same em height": [a1, a2], "problems": bad} if bad else None
+
+
+def job_two_builds(jc):
+    jc.encode(BT.BitmapMetrics.create)
+    upem, F, h = jc.params["upem"], jc.params["F"], jc.params["h"]
+    inp = {"upem": upem, "F": F, "h": h, "asc1": core.SymNum(z3.Int("asc1")), "asc2": core.SymNum(z3.Int("asc2"))}
+
+    def body():
+        return _two_builds(upem, F, h, core.integer("asc1", 0, F), core.integer("asc2", 0, F))
+
+    with shims.installed(bt_shims()):
+        results = jc.explore(body, catch=(AssertionError, ValueError), max_paths=400)
+    ppem = round(Fraction(upem * h, F))
+    lh = round(Fraction(F * ppem, upem))
+    for r in results:
+        if r.exc is not None:
+            jc.reach(r, "rejected")
+            continue
+        jc.reach(r, "ok")
+        conj = []
+        for name, (y, la, lhh, pp) in zip(("asc1", "asc2"), r.value):
+            ideal = z3.ToReal(z3.Int(name)) * R(Fraction(ppem, upem)) - R(Fraction(lh - h, 2))
+            nudged = z3.Or(core.as_term(y) == 127, core.as_term(y) == -128)
+            conj.append(z3.Or(nudged, absz(core.as_term(y) - ideal) <= R(Fraction(1, 2))))
+        jc.prove(r, z3.And(*conj), "each of two builds in one process gets the bearing of its own ascender (nothing carried over from the first build)", inp, replay_two_builds, key="C14:two-builds")
+    jc.expect_reached("ok")
+
+
 def jobs(tier):
-    js = [Job("png_read_from[histories]", job_read_from)]
+    js = [Job("png_read_from[histories]", job_read_from), Job("two builds[upem=1024,F=1200,h=128]", job_two_builds, upem=1024, F=1200, h=128),
+          Job("two builds[upem=1000,F=1000,h=64]", job_two_builds, upem=1000, F=1000, h=64)]
     from harness import C17
 
     for fmt in ("cbdt", "sbix"):
